@@ -308,14 +308,24 @@ func (n *Net) Duplicate(p *Packet) *Packet {
 }
 
 // Wait lets every goroutine of the system run until all are durably blocked.
-func Wait() { synctest.Wait() }
+func Wait() { wait() }
+
+// Waiting is true while the harness goroutine sits in synctest.Wait, i.e.
+// while only goroutines of the simulated system run.
+var Waiting bool
+
+func wait() {
+	Waiting = true
+	synctest.Wait()
+	Waiting = false
+}
 
 // Deliver moves one packet to its destination router through the receiver's
 // real frame parser and switch input, then waits for quiescence.
 func (n *Net) Deliver(p *Packet) {
 	n.Remove(p)
 	n.DeliverRaw(p)
-	synctest.Wait()
+	wait()
 }
 
 // DeliverRaw is Deliver without removing from the queue and without waiting.
@@ -478,7 +488,7 @@ func (n *Net) RunFor(tp *core.Tape, d time.Duration, maxSteps int) int {
 			step = rem
 		}
 		time.Sleep(step)
-		synctest.Wait()
+		wait()
 	}
 	return steps
 }
